@@ -1,6 +1,214 @@
+(* C09 -- The derived task graph is faithful to the declared dependencies.
+   Property theorems only; proofs live in Proofs/DagProofs.v.
+
+   Setting.  [e] is an engine descriptor (DESIGN A.1), [construct e ro fo] the
+   model of dag.Construct(factories) ([ro], [fo]: iteration orders of two
+   python sets, any lists -- the theorems hold for every order).  The
+   hypotheses are one boolean, [wf_engineb e rk = true]:
+     - (package, algorithm) names are unique,
+     - every reference (input or feedback) resolves to >= 1 existing value
+       (compliance rule 11),
+     - [rk] is a rank witness: every declared input has a strictly smaller rank
+       than its consumer and ranks are < number of algorithms (acyclicity).
+   A dotted name is the list of its components; [trim L] keeps the first L
+   (Construct.trim).  L = 2: algorithm tree [at], 3: state vectors [svt],
+   1: packages [tt], 4: values [vt].  [b_own b] are the value names algorithm
+   [b] owns, [expands e (a_deps (b_alg b))] the value names it declares as input
+   (as_vref of previous()/traits()/variables()). *)
 From DV Require Import Model.Dag Proofs.DagProofs.
-From Coq Require Import List Arith Bool.
+From Coq Require Import List Arith Bool Relations.
 Import ListNotations.
-Theorem C09_placeholder : t_nodes ex_dag 2 = [[1;2]; [1;4]; [1;3]].
+
+(* the boolean hypothesis implies the logical one used in Proofs/ *)
+Theorem C09_hypotheses : forall e rk, wf_engineb e rk = true -> wf_engine e (rank_of rk).
+Proof. exact wf_engineb_spec. Qed.
+Print Assumptions C09_hypotheses.
+
+(* ---- nodes ------------------------------------------------------------- *)
+(* the algorithm tree has exactly one node per algorithm that owns a value,
+   and each hangs below a root of [at] (so locate()/iter() find it) *)
+Theorem C09_nodes : forall e rk ro fo, wf_engineb e rk = true ->
+  let d := construct e ro fo in
+  NoDup (t_nodes d 2) /\
+  (forall X, In X (t_nodes d 2) <->
+             exists b, In b (build_order e) /\ b_own b <> [] /\ b_tag b = X) /\
+  (forall X, In X (t_nodes d 2) ->
+             exists r, In r (t_roots d 2) /\
+                       clos_refl_trans name (fun x y => In y (t_kids d 2 x)) r X).
+Proof.
+  intros e rk ro fo H d. pose proof (wf_engineb_spec e rk H) as W. split; [|split].
+  - apply (t_nodes_nodup e ro fo).
+  - intro X. apply (t_nodes2_iff e (rank_of rk) ro fo X W).
+  - intro X. apply (t_nodes_reach e (rank_of rk) W ro fo).
+Qed.
+Print Assumptions C09_nodes.
+
+(* same at every granularity: one node per distinct L-prefix of an owned value *)
+Theorem C09_nodes_levels : forall e rk ro fo L, wf_engineb e rk = true ->
+  let d := construct e ro fo in
+  NoDup (t_nodes d L) /\
+  (forall X, In X (t_nodes d L) <->
+             exists b v, In b (build_order e) /\ In v (b_own b) /\ trim L v = X) /\
+  (forall X, In X (t_nodes d L) ->
+             exists r, In r (t_roots d L) /\
+                       clos_refl_trans name (fun x y => In y (t_kids d L x)) r X).
+Proof.
+  intros e rk ro fo L H d. pose proof (wf_engineb_spec e rk H) as W. split; [|split].
+  - apply (t_nodes_nodup e ro fo).
+  - intro X. unfold d. rewrite (t_nodes_iff e (rank_of rk) W). unfold owned. split.
+    + intros [v [[b [Hb Hv]] E]]. exists b, v. auto.
+    + intros [b [v [Hb [Hv E]]]]. exists v. split; [exists b; auto | exact E].
+  - intro X. apply (t_nodes_reach e (rank_of rk) W ro fo).
+Qed.
+Print Assumptions C09_nodes_levels.
+
+(* ---- edges ------------------------------------------------------------- *)
+(* Y is a child of X in the tree of granularity L exactly when some value of
+   Y's L-prefix is owned by an algorithm that declares a value with L-prefix X
+   as input; for every L (1 = tt, 2 = at, 3 = svt, 4 = vt) *)
+Theorem C09_edges : forall e rk ro fo L X Y, wf_engineb e rk = true ->
+  (In Y (t_kids (construct e ro fo) L X) <->
+   exists b c p, In b (build_order e) /\ In c (b_own b) /\
+                 In p (expands e (a_deps (b_alg b))) /\ trim L p = X /\ trim L c = Y).
+Proof.
+  intros e rk ro fo L X Y H. rewrite (t_kids_iff e (rank_of rk) (wf_engineb_spec e rk H)).
+  apply ledge_descr.
+Qed.
+Print Assumptions C09_edges.
+
+(* the value-level graph itself (Construct.vt / node children), no hypothesis *)
+Theorem C09_edges_values : forall e ro fo p c,
+  In c (kids (d_edges (construct e ro fo)) p) <->
+  exists b, In b (build_order e) /\ In c (b_own b) /\ In p (expands e (a_deps (b_alg b))).
+Proof. intros e ro fo p c. apply vedge_iff. Qed.
+Print Assumptions C09_edges_values.
+
+(* the scheduling relation is irreflexive and follows the rank: kids acyclic *)
+Theorem C09_edges_acyclic : forall e rk ro fo X Y, wf_engineb e rk = true ->
+  In Y (t_kids (construct e ro fo) 2 X) -> rank_of rk X < rank_of rk Y /\ X <> Y.
+Proof.
+  intros e rk ro fo X Y H Hk. pose proof (wf_engineb_spec e rk H) as W.
+  apply (t_kids_iff e (rank_of rk) W) in Hk. apply (ledge2_rank e (rank_of rk) W) in Hk.
+  split; [exact Hk | intro E; subst; apply (Nat.lt_irrefl _ Hk)].
+Qed.
+Print Assumptions C09_edges_acyclic.
+
+(* ---- ancestry ---------------------------------------------------------- *)
+(* the 'ancestry' attribute of an algorithm node is the transitive closure of
+   the algorithm-level edges; 'parents' is their inverse.  (That the fuelled
+   loops of the model terminate with the full closure is part of the
+   statement: on a cyclic engine the python loops for ever.) *)
+Theorem C09_ancestry : forall e rk ro fo X A, wf_engineb e rk = true ->
+  let d := construct e ro fo in
+  (In A (t_anc d X) <-> clos_trans name (fun a x => In x (t_kids d 2 a)) A X) /\
+  (In A (t_par d X) <-> In X (t_kids d 2 A)).
+Proof.
+  intros e rk ro fo X A H d. pose proof (wf_engineb_spec e rk H) as W. split.
+  - unfold d. rewrite (t_anc_iff e (rank_of rk) W).
+    split; apply ct_incl; intros x y Hxy; apply (t_kids_iff e (rank_of rk) W); exact Hxy.
+  - unfold d. rewrite (t_par_iff e (rank_of rk) W), (t_kids_iff e (rank_of rk) W). reflexivity.
+Qed.
+Print Assumptions C09_ancestry.
+
+(* value level: the ancestry set of every value node is the transitive closure
+   of the value-level edges, and any larger fuel gives the same set *)
+Theorem C09_ancestry_values : forall e rk ro fo n a, wf_engineb e rk = true ->
+  let d := construct e ro fo in
+  In n (d_flat d) ->
+  (In a (d_anc d n) <-> clos_trans name (fun x y => In y (kids (d_edges d) x)) a n) /\
+  (forall f, d_fuel d <= f -> (In a (ancestry (d_par d) f n) <-> In a (d_anc d n))).
+Proof.
+  intros e rk ro fo n a H d Hn. pose proof (wf_engineb_spec e rk H) as W.
+  assert (Ho : owned e n) by (apply (flat_owned e (rank_of rk) W); exact Hn).
+  split.
+  - unfold d. rewrite (d_anc_iff e (rank_of rk) W ro fo n a Ho).
+    split; apply ct_incl; intros x y Hxy; apply vedge_iff; exact Hxy.
+  - intros f Hf. unfold d_anc.
+    assert (Hdec : forall x y, pedge (d_par d) x y -> rvv (rank_of rk) x < rvv (rank_of rk) y).
+    { intros x y Hxy. apply (d_par_iff e (rank_of rk) W) in Hxy. apply (vedge_rank e (rank_of rk) W). exact Hxy. }
+    pose proof (owned_bound e (rank_of rk) W n Ho) as Hb.
+    assert (Hfu : d_fuel d = dfuel e (flat_order (events e))) by reflexivity.
+    rewrite (ancestry_spec (d_par d) (rvv (rank_of rk)) Hdec f n), (ancestry_spec (d_par d) (rvv (rank_of rk)) Hdec (d_fuel d) n).
+    + reflexivity.
+    + rewrite Hfu. unfold dfuel. apply Nat.lt_le_incl. eapply Nat.lt_trans; [exact Hb|]. apply Nat.lt_succ_r. apply Nat.le_add_r.
+    + eapply Nat.le_trans; [|exact Hf]. rewrite Hfu. unfold dfuel. apply Nat.lt_le_incl. eapply Nat.lt_trans; [exact Hb|]. apply Nat.lt_succ_r. apply Nat.le_add_r.
+Qed.
+Print Assumptions C09_ancestry_values.
+
+(* ---- feedback ---------------------------------------------------------- *)
+(* removing every feedback reference from the engine changes no node, no edge
+   (at any granularity) and no ancestry: feedback orders nothing *)
+Theorem C09_feedback_no_order : forall e rk ro fo ro' fo', wf_engineb e rk = true ->
+  (forall L X Y, In Y (t_kids (construct e ro fo) L X) <-> In Y (t_kids (construct (no_fb e) ro' fo') L X)) /\
+  (forall X A, In A (t_anc (construct e ro fo) X) <-> In A (t_anc (construct (no_fb e) ro' fo') X)) /\
+  (forall L X, In X (t_nodes (construct e ro fo) L) <-> In X (t_nodes (construct (no_fb e) ro' fo') L)).
+Proof.
+  intros e rk ro fo ro' fo' H. apply (feedback_orders_nothing e (rank_of rk)). apply wf_engineb_spec. exact H.
+Qed.
+Print Assumptions C09_feedback_no_order.
+
+(* every fed-back value name is a key of Construct.feedbacks and is mapped to
+   (the tag of a value of) a consumer that declares it; there is no other key;
+   the 'feedback' attribute of a tree node holds exactly the trimmed names its
+   values' algorithm declares *)
+Theorem C09_feedback : forall e rk ro fo, wf_engineb e rk = true ->
+  let d := construct e ro fo in
+  (forall b f, In b (build_order e) -> b_own b <> [] -> In f (expands e (a_fb (b_alg b))) ->
+     exists n b', dict_get (d_fbs d) f = Some n /\ In b' (build_order e) /\ In n (b_own b') /\
+                  In f (expands e (a_fb (b_alg b')))) /\
+  (forall f n, dict_get (d_fbs d) f = Some n ->
+     exists b', In b' (build_order e) /\ In n (b_own b') /\ In f (expands e (a_fb (b_alg b')))) /\
+  (forall L X Y, In Y (t_fb d L X) <->
+     exists b v f, In b (build_order e) /\ In v (b_own b) /\ In f (expands e (a_fb (b_alg b))) /\
+                   trim L v = X /\ trim L f = Y).
+Proof.
+  intros e rk ro fo H d. pose proof (wf_engineb_spec e rk H) as W.
+  assert (S : forall f n, owned e n -> In f (fb_of e n) ->
+              exists b', In b' (build_order e) /\ In n (b_own b') /\ In f (expands e (a_fb (b_alg b')))).
+  { intros f n [b' [Hb' Hn]] Hf. exists b'. repeat split; auto.
+    unfold fb_of in Hf. rewrite (owner_of e (rank_of rk) W b' n Hb' Hn) in Hf. exact Hf. }
+  split; [|split].
+  - intros b f Hb Hne Hf. destruct (fbs_complete e (rank_of rk) W ro fo b f Hb Hne Hf) as [n [Hd [Ho Hfn]]].
+    destruct (S f n Ho Hfn) as [b' Hb']. exists n, b'. split; [exact Hd | exact Hb'].
+  - intros f n Hd. destruct (fbs_sound e (rank_of rk) W ro fo f n Hd) as [Ho Hfn]. apply S; assumption.
+  - intros L X Y. unfold d. rewrite (t_fb_iff e (rank_of rk) W). split.
+    + intros [v [f [Ho [Hf [E1 E2]]]]]. destruct (S f v Ho Hf) as [b [Hb [Hv Hfb]]]. exists b, v, f. auto.
+    + intros [b [v [f [Hb [Hv [Hf [E1 E2]]]]]]]. exists v, f. split; [exists b; auto|]. split; [|auto].
+      unfold fb_of. rewrite (owner_of e (rank_of rk) W b v Hb Hv). exact Hf.
+Qed.
+Print Assumptions C09_feedback.
+
+(* ---- the record consumed by the scheduler model ------------------------- *)
+(* [graph_of] = one record per node of Construct.at.  Stated on plain lists:
+   tags are unique; kids are nodes and have a larger rank (acyclic); anc is the
+   transitive closure of the inverse of kids; outs are non-empty and belong to
+   the node; Y is a kid of X exactly when Y declares an output of X as input;
+   every input is an output of some node. *)
+Theorem C09_wf : forall e rk ro fo, wf_engineb e rk = true ->
+  let G := fst (graph_of e ro fo) in
+  NoDup (map g_tag G) /\
+  (forall g y, In g G -> In y (g_kids g) ->
+               (exists g', In g' G /\ g_tag g' = y) /\ rank_of rk (g_tag g) < rank_of rk y) /\
+  (forall g A, In g G ->
+               (In A (g_anc g) <->
+                clos_trans name (fun a x => exists ga, In ga G /\ g_tag ga = a /\ In x (g_kids ga)) A (g_tag g))) /\
+  (forall g, In g G -> g_outs g <> [] /\ forall v, In v (g_outs g) -> trim 2 v = g_tag g) /\
+  (forall g y, In g G ->
+               (In y (g_kids g) <->
+                exists g', In g' G /\ g_tag g' = y /\ exists p, In p (g_ins g') /\ In p (g_outs g))) /\
+  (forall g p, In g G -> In p (g_ins g) -> exists g', In g' G /\ In p (g_outs g')).
+Proof.
+  intros e rk ro fo H. apply (graph_wf e (rank_of rk)). apply wf_engineb_spec. exact H.
+Qed.
+Print Assumptions C09_wf.
+
+(* ---- non-vacuity -------------------------------------------------------- *)
+(* a0 -> a1 -> a2, a0 -> a2 by a value reference, a0 consumes a value of a2 as
+   feedback: the hypotheses hold and the conclusions are not empty *)
+Example C09_example_hypotheses : wf_engineb ex_eng ex_rank = true.
 Proof. vm_compute. reflexivity. Qed.
-Print Assumptions C09_placeholder.
+Example C09_example_graph :
+  map (fun g => (g_tag g, g_kids g, g_anc g, g_lvl g)) (fst (graph_of ex_eng [] (fun _ => []))) =
+  [([1;2], [[1;3]; [1;4]], [], 0); ([1;3], [[1;4]], [[1;2]], 1); ([1;4], [], [[1;3]; [1;2]], 2)]
+  /\ snd (graph_of ex_eng [] (fun _ => [])) = [([1;4;10;20], [1;2;10;21])].
+Proof. vm_compute. split; reflexivity. Qed.
